@@ -1493,7 +1493,7 @@ class Sampling(Discrete):
         self.has_check_var = True
 
         self.v = np.array([0])
-        self._last_t = np.array([0])
+        self._last_t = np.array([0.0])
         self._last_v = np.array([0])
         self.indices = np.array([0])
 
